@@ -27,6 +27,7 @@ type Delivery struct {
 	Chunk   int            // >0: client delivers each request in pieces of this many bytes, waiting for quiescence in between
 	MaxRead int            // >0: server-side socket reads return at most this many bytes
 	Before  map[int]func() // harness actions executed before request i is sent (e.g. replace a file on disk)
+	Prelude func(s *Sess)  // runs on the fresh server before the judged connection is made (e.g. another client's aborted transfer)
 }
 
 // runSession drives one connection through reqs against a freshly started server and checks every response
@@ -35,6 +36,9 @@ func runSession(t *testing.T, o SrvOpts, m *Model, reqs []Req, d Delivery) *Sess
 	res := &SessResult{FailStep: -1}
 	synctest.Test(t, func(t *testing.T) {
 		s := startSrv(o)
+		if d.Prelude != nil {
+			d.Prelude(s)
+		}
 		c := s.Dial(nil)
 		c.maxRead = d.MaxRead
 		synctest.Wait()
@@ -147,4 +151,4 @@ func reqStrings(reqs []Req) []string {
 	return out
 }
 
-func (d Delivery) plain() bool { return d.Chunk == 0 && d.MaxRead == 0 && d.Before == nil }
+func (d Delivery) plain() bool { return d.Chunk == 0 && d.MaxRead == 0 && d.Before == nil && d.Prelude == nil }
